@@ -201,10 +201,16 @@ impl Ctx {
                 Ok(p2) => {
                     let acc = p2.verify_bindings().is_ok();
                     // signed components: primary key body, user ids, subkey bodies, hashed areas of all signatures
-                    let same = p2.primary_key.to_bytes().ok() == pk.primary_key.to_bytes().ok()
-                        && p2.details.users.iter().map(|u| u.id.id().to_vec()).collect::<Vec<_>>() == pk.details.users.iter().map(|u| u.id.id().to_vec()).collect::<Vec<_>>()
-                        && p2.public_subkeys.iter().map(|s| s.key.to_bytes().ok()).collect::<Vec<_>>() == pk.public_subkeys.iter().map(|s| s.key.to_bytes().ok()).collect::<Vec<_>>()
-                        && sigs_hashed(&p2) == sigs_hashed(&pk);
+                    // every signed component that is still present and certified must be an original one
+                    // (a flip may turn a packet into something the parser drops: a smaller certificate is not a forgery)
+                    let orig_sigs = sigs_hashed(&pk);
+                    let new_sigs = sigs_hashed(&p2);
+                    let orig_ids: Vec<Vec<u8>> = pk.details.users.iter().map(|u| u.id.id().to_vec()).collect();
+                    let orig_subs: Vec<Option<Vec<u8>>> = pk.public_subkeys.iter().map(|s| s.key.to_bytes().ok()).collect();
+                    let same = new_sigs.iter().all(|s| orig_sigs.contains(s))
+                        && (new_sigs.is_empty() || p2.primary_key.to_bytes().ok() == pk.primary_key.to_bytes().ok())
+                        && p2.details.users.iter().filter(|u| !u.signatures.is_empty()).all(|u| orig_ids.contains(&u.id.id().to_vec()))
+                        && p2.public_subkeys.iter().filter(|s| !s.signatures.is_empty()).all(|s| orig_subs.contains(&s.key.to_bytes().ok()));
                     (acc, same)
                 }
                 Err(_) => (false, true),
